@@ -651,11 +651,23 @@ func tamperB(r *ev.Run, root string, n int) {
 	}
 	t := &tstore{r: r, in: in, id: id, sc: newScanner(), rng: rng,
 		nFlipLarge: r.Pick(256, 768), masksPer: 1, checkAll: false, swapLimit: r.Pick(10, 40)}
-	nrecv := 5*heapLimit + 8 + rng.Intn(12)
-	for i := 0; i < nrecv; i++ {
-		t.plains = append(t.plains, mkPlain("sha224", "small", []byte(fmt.Sprintf("c11 %s blob %d %x", id, i, randBytes(rng, 8+rng.Intn(40))))))
+	// receive until the meta store holds a packed meta blob of more than one STREAM chunk (> 64 KiB:
+	// about 5 nested compactions) and a few single ones; a compaction that ended by the benign index
+	// race only delays this, hence the bound instead of a fixed count
+	nmin := 5*heapLimit + 8 + rng.Intn(12)
+	multi := func() bool {
+		for _, ref := range in.meta.refs() {
+			if _, ch := layout(in.meta.raw(ref)); len(ch) > 1 {
+				return true
+			}
+		}
+		return false
 	}
-	for i := range t.plains {
+	for i := 0; i < 1500; i++ {
+		if i >= nmin && (i-nmin)%20 == 0 && multi() {
+			break
+		}
+		t.plains = append(t.plains, mkPlain("sha224", "small", []byte(fmt.Sprintf("c11 %s blob %d %x", id, i, randBytes(rng, 8+rng.Intn(40))))))
 		if !t.receiveAll1(i) {
 			return
 		}
